@@ -355,4 +355,49 @@ theorem detectAll_tid_noTid (next : Nat → Nat → Option Nat) (fuel : Nat) :
     · injection hstep with hstep; injection hstep with h1 h2; subst h2
       simp [hr]
 
+/-- `-O drop` emits the slice unchanged or nothing -/
+theorem detect_drop_shape (next : Nat → Nat → Option Nat) (fuel : Nat) (st : Lanes) (ev : Ev)
+    (st' : Lanes) (out : List Ev) (h : detect .drop next fuel st ev = .ok (st', out)) :
+    out = [] ∨ out = [ev] := by
+  unfold detect at h
+  simp only [] at h
+  split at h
+  · cases h
+  split at h
+  · cases h
+  split at h
+  · injection h with h; injection h with h1 h2; subst h2; exact Or.inr rfl
+  split at h
+  · injection h with h; injection h with h1 h2; subst h2; exact Or.inl rfl
+  · injection h with h; injection h with h1 h2; subst h2; exact Or.inr rfl
+
+theorem detectAll_drop_sublist (next : Nat → Nat → Option Nat) (fuel : Nat) :
+    ∀ (evs : List Ev) (st st' : Lanes) (out : List Ev),
+      detectAll .drop next fuel st evs = .ok (st', out) → out.Sublist evs := by
+  intro evs
+  induction evs with
+  | nil =>
+    intro st st' out h
+    simp only [detectAll] at h
+    injection h with h; injection h with h1 h2; subst h2
+    exact List.Sublist.refl _
+  | cons ev rest ih =>
+    intro st st' out h
+    simp only [detectAll] at h
+    split at h
+    · cases h
+    rename_i st1 out1 hstep
+    split at h
+    · cases h
+    rename_i st2 out2 hrest
+    injection h with h; injection h with h1 h2; subst h2
+    have hr := ih st1 st2 out2 hrest
+    unfold step at hstep
+    split at hstep
+    · rcases detect_drop_shape next fuel st ev st1 out1 hstep with h0 | h0
+      · subst h0; simpa using hr.cons ev
+      · subst h0; simpa using hr.cons_cons ev
+    · injection hstep with hstep; injection hstep with h1 h2; subst h2
+      simpa using hr.cons_cons ev
+
 end AiuVerif.Overlap
